@@ -84,3 +84,8 @@ let () =
   register "convplainttx" (fun r ->
     let d = rint r in let ds = rdeliveries r in
     pres pstr (convert_plain ttx_dec (Hashtbl.find Drv_plain.plain_writers d) ds))
+
+(* Hamming 24/18 (Model/TtxHam.v): ttxham: a 24-bit word -> the decoded 18 data bits or nothing; ttxhamenc: 18 data bits -> word *)
+let () =
+  register "ttxham" (fun r -> let w = rn r in popt (ham2418_dec_word w));
+  register "ttxhamenc" (fun r -> let d = rn r in pn (ham2418_word d))
